@@ -142,7 +142,7 @@ def run_models(v, mod, models, fn="replay"):
                 obs[x["observation"]] = obs.get(x["observation"], 0) + 1
             else:
                 v.violation(x["sig"], x["detail"], dict(r, rates=rates))
-    v.add_cases(len(cases), keys=[json.dumps([r["model"], r.get("prior"), r.get("flow"), r.get("mag"), r["dens"], r["temp"], r["ne"], r["te"], r["nb"]], sort_keys=True) for r in cases])
+    v.add_cases(len(cases), keys=[json.dumps([r["model"], r.get("prior"), r.get("flow"), r.get("mag"), r.get("bcx_zero"), r["dens"], r["temp"], r["ne"], r["te"], r["nb"]], sort_keys=True) for r in cases])
     v.sample({k: cases[len(cases) // 2][k] for k in ("model", "dens", "temp", "ne", "te", "total", "raises")})
     v.notes["not_asserted"] = obs
     return cases
